@@ -54,6 +54,33 @@ func (e *Enc) call(fr *frame, st *State, c *ssa.CallCommon, res ssa.Value, pos t
 		args[i] = fr.val(st, a)
 	}
 	out := e.callWith(fr, st, c, fnv, args, res, pos)
+	if e.contract != nil && len(e.contract.LastResults) > 0 && !fr.inlined {
+		name := ""
+		if c.IsInvoke() {
+			name = c.Method.Name()
+		} else if sc := c.StaticCallee(); sc != nil {
+			name = sc.Name()
+		}
+		for _, lr := range e.contract.LastResults {
+			if lr.Callee != name {
+				continue
+			}
+			rv := out
+			if len(out.tuple) > 0 {
+				if lr.Res >= len(out.tuple) {
+					continue
+				}
+				rv = out.tuple[lr.Res]
+			}
+			if rv.term == "" {
+				continue
+			}
+			k := lastResultKey(name, e.u.sortOf(rv.typ))
+			e.lastResTypes[name] = rv.typ
+			e.ghostSet(st, k, rv.term)
+			e.v.callsiteHits[e.contract.Key+"/lastresult:"+name]++
+		}
+	}
 	if e.contract != nil && len(e.contract.CallSites) > 0 {
 		name, fn, cargs := "<dynamic>", (*ssa.Function)(nil), args
 		if c.IsInvoke() {
@@ -274,6 +301,9 @@ func (e *Enc) builtin(fr *frame, st *State, b *ssa.Builtin, c *ssa.CallCommon, a
 		return v
 	case "append":
 		_, isStr := args[1].typ.Underlying().(*types.Basic)
+		if !isStr && singleVarargs(c.Args[1]) {
+			return e.appendOne(fr, st, args[0], args[1], args[0].typ, prefix)
+		}
 		return e.appendOp(fr, st, args[0], args[1], args[0].typ, prefix, isStr)
 	case "copy":
 		return e.copyOp(fr, st, args[0], args[1], prefix)
@@ -466,7 +496,7 @@ func (e *Enc) applyClauses(fr *frame, st *State, con *Contract, pkg *types.Packa
 		}
 	}
 	for _, cc := range con.CallCounts {
-		k := callCountKey(cc.Callee)
+		k := cc.key()
 		e.ghostGet(st, k)
 		st.ghost[k] = e.q.fresh("gh_"+k, e.q.ghostSort(k))
 	}
@@ -828,14 +858,23 @@ func (e *Enc) obligeClauseNamed(env *SpecEnv, st *State, kind, label string, c *
 
 // callsiteChecks asserts the enclosing function's callsite clauses for calls
 // of the named callee.
+func lastResultKey(callee, sort string) string { return "lastres_" + callee + "@" + sort }
+
 func callCountKey(callee string) string { return "calls_" + callee + "@(Array Int Int)" }
+
+func (cc CallCount) key() string {
+	if cc.Iface {
+		return "calls_" + cc.Callee + "@(Array Iface Int)"
+	}
+	return callCountKey(cc.Callee)
+}
 
 func (e *Enc) callsiteChecks(fr *frame, st *State, callee string, fn *ssa.Function, args []Value, pos token.Pos) {
 	con := e.contract
 	if con != nil {
 		for _, cc := range con.CallCounts {
 			if cc.Callee == callee && cc.Arg < len(args) {
-				k := callCountKey(callee)
+				k := cc.key()
 				cur := e.ghostGet(st, k)
 				e.ghostSet(st, k, store(cur, args[cc.Arg].term, "(+ "+sel(cur, args[cc.Arg].term)+" 1)"))
 				e.v.callsiteHits[con.Key+"/callcount:"+callee]++
